@@ -4,6 +4,7 @@ package main
 // what the loop body writes (found by a discovery pass over the body).
 
 import (
+	"os"
 	"fmt"
 	"go/token"
 	"regexp"
@@ -178,6 +179,9 @@ func (fr *Frame) cutLoop(li *loopInfo) *State {
 		case 1:
 			// fresh object of this iteration: invisible at the loop head
 		case 2:
+			if os.Getenv("OWVC_DEBUG") != "" {
+				fmt.Fprintf(os.Stderr, "loop havoc: heap %s written at loop-variant key %s\n", w.heap, w.key.S)
+			}
 			whole[w.heap] = true
 		}
 	}
